@@ -182,6 +182,8 @@ def run(repo, chk):
            f"(build() hands out the live table of a root accumulator)" + (f": {leaks}" if leaks else ""))
     from .shared import routing_obligations
     routing_obligations(repo, chk, "R07.3", "record")
+    from .shared import count_integrity_obligations
+    count_integrity_obligations(repo, chk, "R07.1", "a variable three probes capture stays instrumented until the third of them leaves (the outermost total probe keeps getting complete records)")
     from .shared import call_exit_order_obligations
     call_exit_order_obligations(repo, chk, "R07.3", "a listener that calls a probed function when a record is delivered does not write into the record (or the pending levels) of the call that is ending")
     from .shared import build_precedence_obligations
